@@ -2,6 +2,7 @@ import GnpyModel
 import GnpyProofs.Lemmas.SlotsStep
 import GnpyProofs.Lemmas.SlotsHistory
 import GnpyProofs.Lemmas.SlotsOrder
+import GnpyProofs.Lemmas.SlotsGrant
 /- Property theorems for C14 — spectrum assignment never double-books a slot and honours what the user fixed.
    Model: GnpyModel/Slots.lean (`step` = one iteration of `pth_assign_spectrum`, `run` = a history of calls).
    Helper lemmas: GnpyProofs/Lemmas/{PyList,Slots,SlotsStep}.lean. -/
@@ -508,6 +509,71 @@ theorem reserved_check (pol : Policy) (s : List Oms) (r : Request) (nbWl require
             cases hh.2
     · intro hh; exact absurd hh hlt
 
+
+/-- **a free fixed slot is granted** (completeness for the fully fixed one-slot request): when the user fixes (N, M), the
+    width carries the demand (`nb_wl ≤ M // m₁`, required slots ≤ M) and `[N−M, N+M−1]` is feasible on the route — free
+    on every OMS, inside the guard band, above the first index of the maps — the request is accepted with exactly
+    (N, M), whatever the policy. Together with `step_blocked_unchanged` this is what makes a blocked request invisible
+    to the requests that follow it. -/
+theorem fixed_free_granted (pol : Policy) (s : List Oms) (r : Request) (n m nbWl req x pcm : Int)
+    (hs : StateWF s) (hnd : r.pathOms.Nodup) (hne : r.pathOms ≠ []) (hpb : r.preBlocked = false)
+    (he : r.entries = [⟨some n, some m⟩])
+    (h1 : slotsVsBandwidth r.pathBandwidth r.spacing r.bitRate = .ok (nbWl, req))
+    (h2 : slotsVsBandwidth r.bitRate r.spacing r.bitRate = .ok (x, pcm)) (hpcm : pcm ≠ 0)
+    (hm : 0 < m) (hres : nbWl ≤ floorDiv m pcm) (hreq : req ≤ m)
+    (hfeas : Feasible s r.pathOms n m)
+    (hin : ∀ k ∈ r.pathOms, ∃ o, s[k]? = some o ∧ o.bm.nMin < n - m ∧ n + m - 1 ≤ o.bm.nMax) :
+    ∃ s', step pol s r = .ok (s', Outcome.accepted [(n, m)]) := by
+  have hvalid : ∀ k ∈ r.pathOms, ∃ o, s[k]? = some o := fun k hk => by
+    obtain ⟨o, ho, _⟩ := hin k hk; exact ⟨o, ho⟩
+  obtain ⟨t, ht⟩ := aggregate_total s hs r.pathOms hne hvalid
+  obtain ⟨_, hwf, c1, c2, c3⟩ := aggregate_spec s hs _ t ht
+  have hok : RangeOK t n m := feasible_rangeOK s hs _ t ht n m hfeas
+  obtain ⟨k0, hk0⟩ := List.exists_mem_of_ne_nil _ hne
+  obtain ⟨o0, ho0, g1, g2⟩ := hin k0 hk0
+  obtain ⟨e1, e2, _, _⟩ := c2 k0 hk0 o0 ho0
+  obtain ⟨t', ht'⟩ := assignSpectrum_of t n m hwf hm (by have := hok.1; omega) (by have := hok.2.1; omega)
+    (by omega) (by omega)
+  -- the selection loop on the single entry
+  have hsel : selectOne t ⟨some n, some m⟩ req pcm pol = .ok (some (n, m)) := by
+    simp only [selectOne, bind, Except.bind, determineSlotNumbers_of t hwf n m hm hok]
+    have : ¬ m = 0 := by omega
+    simp [this, pure, Except.pure]
+  have hloop : nmLoop pcm pol t req [⟨some n, some m⟩] = .ok ([(n, m)], req - m) := by
+    simp only [nmLoop, bind, Except.bind, hsel, ht']
+    rfl
+  have hcomp : computeNM req r.entries r.pathOms s pcm pol = .ok ([(n, m)], req - m) := by
+    rw [he]
+    have hord : (orderSlots [(⟨some n, some m⟩ : Entry)]).map (·.2) = [⟨some n, some m⟩] := rfl
+    simp only [computeNM, bind, Except.bind, ht, hord, hloop]
+    rfl
+  -- the final loop on the OMS of the route
+  obtain ⟨s', hs'⟩ := applyPath_total n m r.id nbWl r.pathOms s hnd (by
+    intro k hk
+    obtain ⟨o, ho, a1, a2⟩ := hin k hk
+    obtain ⟨f1, f2, _⟩ := hfeas k hk o ho
+    obtain ⟨q1, q2⟩ := hs.guard o (List.mem_of_getElem? ho)
+    exact ⟨o, ho, hs.wf o (List.mem_of_getElem? ho), hm, by omega, by omega, a1, a2⟩)
+  have hall : ∀ e ∈ r.entries, ∃ m', e.m = some m' ∧ m' ≠ 0 := by
+    intro e hee
+    rw [he] at hee
+    have : e = ⟨some n, some m⟩ := by simpa using hee
+    subst this
+    exact ⟨m, rfl, by omega⟩
+  have hrs : reservedShort r.entries pcm nbWl = .ok false := by
+    have hrc := reservedChannels_all r.entries pcm hpcm hall
+    simp only [reservedShort, bind, Except.bind, hrc]
+    have : ¬ (nbWl > sumInt (List.map (fun e : Entry => floorDiv (e.m.getD 0) pcm) r.entries)) := by
+      rw [he]
+      simp only [List.map_cons, List.map_nil, sumInt, List.foldr_cons, List.foldr_nil, Option.getD_some]
+      omega
+    simp [this, pure, Except.pure]
+  refine ⟨s', ?_⟩
+  unfold step
+  simp only [hpb, Bool.false_eq_true, if_false, bind, Except.bind, h1, h2, hrs, hcomp]
+  have : ¬ (req - m > 0) := by omega
+  simp only [this, if_false, hs']
+  rfl
 
 /-! ### the hypotheses are what `build_oms_list` produces (and are satisfiable) -/
 
